@@ -30,22 +30,36 @@ end columns
 
 /-! ### `getStartStop` -/
 
+/-- `strconv.Atoi` as the pair Go returns: the number and "no error"; on a syntax error 0, on a number that does
+not fit `int` the nearest bound — both with the error set -/
+def atoiPair (bs : List Nat) : Int × Bool :=
+  match atoi bs with
+  | some v => (v, false)
+  | none =>
+    let (neg, ds) : Bool × List Nat :=
+      match bs with
+      | 43 :: r => (false, r)
+      | 45 :: r => (true, r)
+      | r => (false, r)
+    if ds.isEmpty || !ds.all (fun c => decide (48 ≤ c) && decide (c ≤ 57)) then (0, true)
+    else if neg then (-(2 ^ 63 : Int), true) else ((2 ^ 63 : Int) - 1, true)
+
 /-- `getStartStop` (simul/build.go:352-367): `simRange` split at `:`; a first field that is no number
-means "everything" (also for `:4` — the second field is not looked at then); one number means that run
-only; `a:b` the runs a..b; `a:` (or a second field that is no number) a..rcs. -/
+means "everything from what `Atoi` left in `start`" (0 for a text that is no number — also for `:4`, the second
+field is not looked at then); one number means that run only; `a:b` the runs a..b; `a:` (or a second field that
+is no number) a..rcs. -/
 def getStartStop (simRange : List Nat) (rcs : Int) : Int × Int :=
   match splitColon simRange with
   | [] => (0, rcs - 1)          -- not reachable: `strings.Split` never returns an empty slice
   | f0 :: rest =>
-    match atoi f0 with
-    | none => (0, rcs - 1)
-    | some start =>
+    let p := atoiPair f0
+    if p.2 then (p.1, rcs - 1)
+    else
       match rest with
-      | [] => (start, start)
+      | [] => (p.1, p.1)
       | f1 :: _ =>
-        match atoi f1 with
-        | some stop => (start, stop)
-        | none => (start, rcs)
+        let q := atoiPair f1
+        if q.2 then (p.1, rcs) else (p.1, q.1)
 
 /-- `i < start || i > stop` negated: run `i` is executed -/
 def inRange (ss : Int × Int) (i : Nat) : Bool := decide (ss.1 ≤ (i : Int)) && decide ((i : Int) ≤ ss.2)
